@@ -268,20 +268,21 @@ def part_d(rep, hbin, tier, seed, cov):
                     cand.append(d["implementation_printed"])
             open(tmp, "w").write("".join("ms-segwit %s\nms-tap %s\n" % (t, t) for t in cand))
             q = _run_engine(hbin, ["rt", "1", tier, tmp], tier)
-            for kind, res in re.findall(r"^REPLAY kind=(\S+) (.*)$", q.stdout, flags=re.M):
+            for ri, (kind, res) in enumerate(re.findall(r"^REPLAY kind=(\S+) (.*)$", q.stdout, flags=re.M)):
                 bad = ("panic" in res) or ("reparse-error" in res) or ("verdict=FAIL" in res)
                 m2 = re.search(r"dump=(.*?) printed=(.*?) redump=(.*?) reprinted=(.*)$", res)
                 if m2 and (m2.group(1) != m2.group(3) or m2.group(2) != m2.group(4)):
                     bad = True
                 if bad:
-                    fail = (kind, res)
+                    # lines were written as (ms-segwit t, ms-tap t) per candidate text t
+                    fail = (kind, res, cand[ri // 2] if ri // 2 < len(cand) else "")
                     break
             for d in diffs:
                 if any(o[:1] == [2] for o in d["implementation_obs[bare,legacy,segwitv0,tap]"]):
-                    fail = fail or ("panic", "from_tree panics on %r" % d["input"])
+                    fail = fail or ("ms-segwit", "from_tree panics on %r" % d["input"], d["input"])
         if fail:
             rep.violation("mstext-rt", "miniscript text round trip fails on the real code: %s" % fail[1][:500],
-                          {"property": PID, "part": "round-trip", "key": "mstext-rt", "kind_line": "%s %s" % (fail[0], (diffs[0]["implementation_printed"] or diffs[0]["input"])),
+                          {"property": PID, "part": "round-trip", "key": "mstext-rt", "kind_line": "%s %s" % (fail[0], fail[2]),
                            "differences": diffs, "seed": seed, "tier": tier}, True)
         else:
             rep.violation("mstext-tie", "miniscript text model and parser/printer differ: %s" % json.dumps(diffs[:1])[:500],
